@@ -144,6 +144,13 @@ UNIT = Unit(
                f"  forall|j: int| 0 <= j < {mt.group(1)} && j < exprs.len() - 1 ==> inferred(#[trigger] exprs@[j], tast_exprs@[j]),\n"
                f"  {mt.group(1)} == exprs.len() ==> checked_as(exprs@[exprs.len() - 1], *expected, tast_exprs@[exprs.len() - 1]),\n decreases exprs.len() - {mt.group(1)},") if mt else None)(
                re.search(r"while\s+(__fk\d+)\s*<\s*exprs\.len\(\)", header))),
+        Fn(file=C, name="infer_proj_expr", container="Typer", ret="r", attrs="#[verifier::loop_isolation(false)]",
+           pre_rewrites=[(re.compile(r"(\w+)\.get\((\w+)\)\.cloned\(\)\.unwrap_or_else\(\|\| \{(.*?)\n(\s*)\}\);", re.S),
+                          r"match vec_get_cloned(\1, \2) { Some(__t) => __t, None => {\3\n\4} };", 1),
+                         ("diagnostics::Stage::Typer", "Stage::Typer", "*"), ("diagnostics::Severity::Error", "Severity::Error", "*")],
+           rewrites=[VC, PUSHED],
+           obligation="projection: the component's type for a tuple type that has that component; otherwise an error is reported",
+           contract="ensures proj_rule_ok(tuple, index, r, old(diagnostics).errors(), final(diagnostics).errors()),"),
         whole("infer_field_expr",
               "ensures r matches Expr::EField { expr: b, field_name, ty, astptr: _ } && inferred(expr, *b) && field_name@ == field.text()\n"
               "  && exists|f: TastIdent| #[trigger] final(self).recorded().contains(Constraint::StructFieldAccess { expr_ty: expr_ty(*b), field: f, result_ty: ty }) && f.0@ == field.text(),",
